@@ -67,6 +67,22 @@ pub fn buffers(tier: &str) -> Vec<BufGen> {
                 b
             }));
         }
+        // (a2) three records of which record 1 and record 2 are copies of record 0 except for ONE byte (every byte of
+        // the record in turn, two replacement values): a decoder that reuses the previous record when "nothing changed"
+        {
+            let one = fixed_distinct(version, 1, 33);
+            v.push(bg(format!("v{}-neighbouring-records-differing-in-one-byte", version), (rs * 2) as u64, move |i| {
+                let (off, val) = ((i / 2) as usize, if i % 2 == 0 { 0x5au8 } else { 0x00 });
+                let mut b = one.clone();
+                b[2..4].copy_from_slice(&3u16.to_be_bytes());
+                let rec = one[24..24 + rs].to_vec();
+                let mut r1 = rec.clone();
+                r1[off] = if r1[off] == val { val ^ 0xff } else { val };
+                b.extend_from_slice(&r1);
+                b.extend_from_slice(&rec);
+                b
+            }));
+        }
         let htab: Vec<(usize, usize)> = if version == 5 { V5_HDR.iter().skip(2).map(|x| (x.1, x.2)).collect() } else { V7_HDR.iter().skip(2).map(|x| (x.1, x.2)).collect() };
         // (b) boundary values on every field, all pairs of fields x 5x5 values, 2-record packet, field in record 1
         {
